@@ -284,7 +284,25 @@ func c08Probe(c *core.Ctx) {
 			if ce, isC := ast.Unparen(cl.Recv).(*ast.CallExpr); isC && ck.CalleeKey(ce) == "engine.(*socket).Transport" {
 				cur = true
 			}
-			okCk = polling && noop && cur && cg.GuardedBy(cl.Loc, writableTrue())
+			// the writability tested is that of the session's CURRENT transport (the polling one that holds the pending poll), not the candidate's
+			curWritable := func(x *core.Unit, br core.Branch) int {
+				if br.IsCase {
+					return 0
+				}
+				ce, key := x.AsCall(br.Cond)
+				if ce == nil || !strings.HasSuffix(key, ".Writable") {
+					return 0
+				}
+				se, isS := ast.Unparen(ce.Fun).(*ast.SelectorExpr)
+				if !isS {
+					return 0
+				}
+				if rc, isC := ast.Unparen(x.Resolve(se.X)).(*ast.CallExpr); isC && x.CalleeKey(rc) == "engine.(*socket).Transport" {
+					return 1
+				}
+				return 0
+			}
+			okCk = polling && noop && cur && cg.GuardedBy(cl.Loc, curWritable)
 		}
 		c.Check(R, sockUpgrade+"$check/NOOP-only-when-polling∧writable", ck.Pos(), okCk, "a pending poll is released on the current (polling, writable) transport")
 	}
